@@ -300,6 +300,8 @@ class MassMatrixAdaptor(Adaptor):
             "device": self.variance_estimator._mean.device,
         }
         self.variance_estimator._mean = torch.tensor(state_dict["mean"], **info)
+        # the (co)variance has the dtype of the mass matrix, the mean the default dtype
+        info["dtype"] = self.variance_estimator._variance.dtype
         self.variance_estimator._variance = torch.tensor(state_dict["variance"], **info)
 
     @classmethod
